@@ -721,6 +721,11 @@ fn absurd_cases() -> Vec<AbsurdCase> {
             v.push(AbsurdCase { content: format!("#SHAPE=<{h}>\n{body}").into_bytes(), name: "abs.sfs".into() });
         }
     }
+    // very many axes of length 1: one value, but a header that outgrows what NPY 1.0 can declare
+    // (65 535 bytes) when converted
+    for axes in [5_000usize, 21_800, 22_000, 40_000] {
+        v.push(AbsurdCase { content: format!("#SHAPE=<{}>\n7\n", vec!["1"; axes].join("/")).into_bytes(), name: "abs.sfs".into() });
+    }
     // every tuple of up to three axis lengths over small and extreme values: an empty axis next to
     // lengths whose product (or whose strides) overflow, in every position
     let tokens = ["0", "1", "2", "3", "4294967296", "9223372036854775808", "18446744073709551615"];
@@ -788,6 +793,37 @@ fn absurd_cases() -> Vec<AbsurdCase> {
         v.push(AbsurdCase { content: bytes, name: "abs.npy".into() });
     }
     v
+}
+
+#[derive(Clone, Debug, Serialize, Deserialize)]
+pub struct ManyPopsCase {
+    pub n: usize,
+    pub project: bool,
+}
+
+fn eval_many_pops(ctx: &Ctx, case: &ManyPopsCase) -> Verdict {
+    let dir = ctx.worker_dir(crate::engine::worker_id());
+    let n = case.n;
+    let template = crate::props::c10::fresh_record(n);
+    let cs = CallSet {
+        contigs: vec!["ctgP7".into()],
+        samples: (0..n).map(|i| format!("p{i}")).collect(),
+        records: vec![crate::gen::callset::Record { pos: 5, ..template }],
+    };
+    std::fs::write(dir.join("pops.vcf"), cs.to_vcf()).expect("write");
+    std::fs::write(dir.join("pops.samples"), (0..n).map(|i| format!("p{i}\tpop{i}\n")).collect::<String>()).expect("write");
+    let mut argv: Vec<String> = vec!["create".into(), "-S".into(), "pops.samples".into()];
+    if case.project {
+        argv.push("--project-shape".into());
+        argv.push(vec!["2"; n].join(","));
+    }
+    argv.push("pops.vcf".into());
+    let run = cli::sfs(ctx, &argv, Input::Null, &dir);
+    let mut pass = Pass::new();
+    let ex = judge(ctx, &run, &format!("`sfs {}` with {n} populations of one sample each", cli::cut(&argv.join(" "), 120)))?;
+    finish(&mut pass, ex, &run);
+    pass.add_label(format!("populations={n}"));
+    Ok(pass)
 }
 
 fn eval_absurd(ctx: &Ctx, case: &AbsurdCase) -> Verdict {
@@ -956,7 +992,7 @@ pub fn check(ctx: &Ctx) -> Check {
         }),
         Box::new(EnumPart {
             name: "absurd-shapes",
-            rule: "text headers declaring 0-length axes, products beyond 2^64, 40 axes, malformed headers; every tuple of <=3 axis lengths over {0,1,2,3,2^32,2^63,2^64-1} in text (399 x 3 bodies) and over {0,1,2,2^32,2^64-1} in npy (155 x 3 data lengths); npy dicts with 0 / huge / empty / duplicate shapes, header lengths 0 .. 2^32-1, unknown versions; each through 16 view/fold/stat commands (every statistic family, so that the diagnostics for a wrong dimensionality are built too)",
+            rule: "text headers declaring 0-length axes, products beyond 2^64, 40 axes and 5 000 .. 40 000 axes of length 1, malformed headers; every tuple of <=3 axis lengths over {0,1,2,3,2^32,2^63,2^64-1} in text (399 x 3 bodies) and over {0,1,2,2^32,2^64-1} in npy (155 x 3 data lengths); npy dicts with 0 / huge / empty / duplicate shapes, header lengths 0 .. 2^32-1, unknown versions; each through 16 view/fold/stat commands (every statistic family, so that the diagnostics for a wrong dimensionality are built too)",
             exhaustive: true,
             cases: Box::new(|_| absurd_cases()),
             eval: Box::new(eval_absurd),
@@ -983,6 +1019,21 @@ pub fn check(ctx: &Ctx) -> Check {
                 v
             }),
             eval: Box::new(eval_size),
+        }),
+        Box::new(EnumPart {
+            name: "many-populations",
+            rule: "valid call sets of 20 .. 70 samples with every sample in a population of its own (a spectrum of 3^n cells: beyond the address-space cap from n = 17, beyond 2^64 from n = 41), with and without a projection to 1 chromosome per population (2^n cells): a diagnosed failure, the cap, or success -- never an arithmetic overflow",
+            exhaustive: false,
+            cases: Box::new(|_| {
+                let mut v = Vec::new();
+                for n in [20usize, 40, 41, 45, 64, 70] {
+                    for project in [false, true] {
+                        v.push(ManyPopsCase { n, project });
+                    }
+                }
+                v
+            }),
+            eval: Box::new(eval_many_pops),
         }),
         Box::new(EnumPart {
             name: "bcf-header-record-mismatch",
